@@ -237,6 +237,8 @@ def cfg_obligations(ctx, flags, need, notes):
 
 # --------------------------------------------------------------------------------------------
 # items:  ('p', prim, v) ('r', bytes) ('s', bytes) ('op', l) ('sp', l) ('pos', l) ('obj', l, cls, [items])
+#         'objt' / 'objp' instead of 'obj': the record is read back with ReadObject<T>() / the polymorphic ReadObject()
+OBJ = ("obj", "objt", "objp")
 
 def hx(b):
     return b.hex() if b else "-"
@@ -292,8 +294,8 @@ def strip_selfs(x):
         return ("v", x[1], strip_selfs(x[2]))
     if x[0] == "ca":
         return ("ca", x[1], x[2], [(0, strip_selfs(e)) for _, e in x[3]])
-    if x[0] == "obj":
-        return ("obj", x[1], x[2], strip_selfs(x[3]))
+    if x[0] in OBJ:
+        return (x[0], x[1], x[2], strip_selfs(x[3]))
     return x
 
 
@@ -307,8 +309,8 @@ def toks(items):
             out += [k, hx(it[1])]
         elif k in ("op", "sp", "pos"):
             out += [k, str(it[1])]
-        elif k == "obj":
-            out += ["obj", str(it[1]), hx(it[2]), str(len(it[3]))] + toks(it[3])
+        elif k in OBJ:
+            out += [k, str(it[1]), hx(it[2]), str(len(it[3]))] + toks(it[3])
         elif k == "v":
             out += ["v", str(it[1])] + vtoks(it[2])
     return out
@@ -327,13 +329,13 @@ def parse_items(t, selfs=True):
             return (k, b"" if t[i + 1] == "-" else bytes.fromhex(t[i + 1])), i + 2
         if k in ("op", "sp", "pos"):
             return (k, int(t[i + 1])), i + 2
-        if k == "obj":
+        if k in OBJ:
             n = int(t[i + 3])
             body, j = [], i + 4
             for _ in range(n):
                 x, j = one(j)
                 body.append(x)
-            return ("obj", int(t[i + 1]), b"" if t[i + 2] == "-" else bytes.fromhex(t[i + 2]), body), j
+            return (k, int(t[i + 1]), b"" if t[i + 2] == "-" else bytes.fromhex(t[i + 2]), body), j
         raise ValueError("bad item token " + k)
     out, i = [], 0
     while i < len(t):
@@ -343,7 +345,7 @@ def parse_items(t, selfs=True):
 
 
 def count_items(items):
-    return sum(1 + (count_items(it[3]) if it[0] == "obj" else 0) for it in items)
+    return sum(1 + (count_items(it[3]) if it[0] in OBJ else 0) for it in items)
 
 
 def registered(items, acc=None):
@@ -351,7 +353,7 @@ def registered(items, acc=None):
     for it in items:
         if it[0] == "pos":
             acc.add(it[1])
-        elif it[0] == "obj":
+        elif it[0] in OBJ:
             acc.add(it[1])
             registered(it[3], acc)
     return acc
@@ -370,7 +372,7 @@ def targets(items, acc=None):
     for it in items:
         if it[0] in ("op", "sp") and it[1]:
             acc.add(it[1])
-        elif it[0] == "obj":
+        elif it[0] in OBJ:
             targets(it[3], acc)
         elif it[0] == "v":
             vtargets(it[2], acc)
@@ -485,7 +487,7 @@ class VGen:
         return tuple(v)
 
 
-def gen_case(rng, nitems, nobj=None, maxstr=300, dangling=0.04, values=0.2):
+def gen_case(rng, nitems, nobj=None, maxstr=300, dangling=0.04, values=0.2, modes=0.6):
     """a typed write sequence over primitives, strings, raw blocks and an object graph of `nobj`
     listeners whose plain / safe pointers are written before and after (and inside) their targets"""
     nobj = rng.randint(0, 30) if nobj is None else nobj
@@ -523,8 +525,9 @@ def gen_case(rng, nitems, nobj=None, maxstr=300, dangling=0.04, values=0.2):
         return ptr()
 
     def obj(l, depth):
+        kind = rng.choice(OBJ) if rng.random() < modes else "obj"
         if cls[l] == b"Listener":
-            return ("obj", l, cls[l], [("p", "u8", 0)])
+            return (kind, l, cls[l], [("p", "u8", 0)])
         body = []
         n = rng.choice([0, 0, 1, 2, 3, 5, 8])
         for _ in range(n):
@@ -538,7 +541,7 @@ def gen_case(rng, nitems, nobj=None, maxstr=300, dangling=0.04, values=0.2):
                 body.append(obj(pending.pop(), depth + 1))            # nested ArchiveObject
             else:
                 body.append(plain_item())
-        return ("obj", l, cls[l], body)
+        return (kind, l, cls[l], body)
 
     items = []
     while budget[0] > 0:
@@ -560,8 +563,8 @@ def gen_case(rng, nitems, nobj=None, maxstr=300, dangling=0.04, values=0.2):
         for it in its:
             if it[0] == "v":
                 out.append(("v", it[1], vg.freeze(it[2])))
-            elif it[0] == "obj":
-                out.append(("obj", it[1], it[2], freeze(it[3])))
+            elif it[0] in OBJ:
+                out.append((it[0], it[1], it[2], freeze(it[3])))
             else:
                 out.append(it)
         return out
